@@ -1,6 +1,6 @@
 (* Properties_C20.v — property theorems for C20 (Xalan's containers behave like their standard
    models). Statements closed by [exact] and their assumptions; examples showing the hypotheses are
-   satisfiable; the refuted full statement next to its exact partial version. *)
+   satisfiable; regression examples for the repaired defects K-C20-1..6. *)
 From Coq Require Import List Arith Bool Lia.
 Require Import XV.GenCont XV.ContVecDefs XV.ContVecModel XV.ContMapDefs XV.ContMapModel XV.ContStrDefs XV.ContStrModel XV.ContDeqDefs XV.ContDeqModel XV.ContListDefs XV.ContListModel.
 Import ListNotations.
@@ -39,32 +39,24 @@ Theorem vector_push_growth : forall v x, 1 <= vsize v -> vsize v = vcap v ->
 Proof. exact push_growth. Qed.
 Print Assumptions vector_push_growth.
 
-(* FULL statement for insert(pos, n, value) when [value] is a reference to element i of the vector
-   itself (std::vector is required to handle it): the result is the insertion of n copies of the
-   element's value.  FALSE of the faithful model (and of the library): std::fill reads the reference
-   after the elements were shifted.  Witness: [1..6], capacity 20, insert(begin()+1, 2, v[5]). *)
-Definition vector_insert_alias_statement : Prop :=
-  forall v pos n i v', insert_fill_alias v pos n i = Some v' ->
-    vdata v' = ins_spec pos (repeat (nth i (vdata v) 0) n) (vdata v).
+(* insert(pos, n, value) when [value] is a reference to element i of the vector itself (std::vector
+   is required to handle it; repaired by fix K-C20-1: the value is copied first): the result is the
+   insertion of n copies of the element's value, on every path (at end, reallocating, in capacity).
+   The same ops (and resize(n, v[i]), push_back(v[i]), assign(n, x)) are part of vector_refines_list. *)
+Theorem vector_insert_alias : forall v pos n i, pos <= vsize v ->
+  vdata (insert_alias v pos n i) = ins_spec pos (repeat (nth i (vdata v) 0) n) (vdata v).
+Proof. intros. unfold insert_alias. apply insert_list_data. assumption. Qed.
+Print Assumptions vector_insert_alias.
 
-Theorem vector_insert_alias_refuted : ~ vector_insert_alias_statement.
-Proof.
-  intros H. specialize (H (mkvec [1;2;3;4;5;6] 20) 1 2 5 _ eq_refl). vm_compute in H. discriminate H.
-Qed.
-Print Assumptions vector_insert_alias_refuted.
-
-(* exact guard: the referenced element is not behind the inserted block, or the tail is not longer
-   than the inserted count *)
-Theorem vector_insert_alias_partial : forall v pos n i,
-  pos < vsize v -> i < vsize v -> vsize v + n <= vcap v ->
-  (i < pos + n \/ vsize v - pos <= n) ->
-  exists v', insert_fill_alias v pos n i = Some v' /\
-             vdata v' = ins_spec pos (repeat (nth i (vdata v) 0) n) (vdata v).
-Proof.
-  intros. eexists. split; [apply insert_fill_alias_partial; assumption|].
-  apply insert_list_data. lia.
-Qed.
-Print Assumptions vector_insert_alias_partial.
+(* regression of K-C20-1: [1..6], capacity 20, insert(begin()+1, 2, v[5]) inserts 6,6 (was 4,4);
+   resize(9, v[0]); push_back(v[1]) on a full vector; assign(3, 7) *)
+Example vector_alias_regression :
+  map (fun o => match o with Some (_, _, _, d) => d | None => [] end)
+      (vrun vinit [VReserve 20; VPush 1; VPush 2; VPush 3; VPush 4; VPush 5; VPush 6; VInsA 1 2 5; VNewR [5; 6]; VResizeA 4 0;
+                   VPushA 1; VAssignN 3 7])
+  = [[]; [1]; [1;2]; [1;2;3]; [1;2;3;4]; [1;2;3;4;5]; [1;2;3;4;5;6]; [1;6;6;2;3;4;5;6]; [5;6]; [5;6;5;5]; [5;6;5;5;6]; [7;7;7]].
+Proof. vm_compute. reflexivity. Qed.
+Print Assumptions vector_alias_regression.
 
 (* ---- XalanMap --------------------------------------------------------------------------------- *)
 (* For every hash function, every pair of parameter sets with minBuckets >= 1 and every finite op
@@ -126,8 +118,8 @@ Print Assumptions set_refines_fmap.
 (* Every finite op sequence over two strings (append x3, push_back, insert x3, erase x4, resize,
    reserve, clear, assign x2, substr, assign from own substring, append of a substring / of the other
    string, compare x2, operator[], c_str, reverse iteration, copy construction, operator=,
-   self-assignment, swap): whenever the model performs an op (i.e. inside the C++ precondition, no NUL
-   argument, outside the two known-finding guards of [ststep]) the std::u16string specification
+   self-assignment, swap, append / substr with npos): whenever the model performs an op (i.e. inside
+   the C++ precondition, no NUL argument) the std::u16string specification
    returns the same value, the code units and length() agree afterwards and c_str()[length()] is
    NUL. *)
 Theorem string_refines_u16 : forall ops, st_refines stinit uinit ops.
@@ -150,40 +142,39 @@ Example string_ops_are_performed :
 Proof. vm_compute. reflexivity. Qed.
 Print Assumptions string_ops_are_performed.
 
-(* FULL statement for resize(n, c), c <> 0: the result is the first n units padded with c.
-   FALSE of the faithful model (and of the library): when the buffer already holds its terminator the
-   old NUL stays in place.  Witness: "abc".resize(6, 'x') = "abc\0xx". *)
-Definition string_resize_statement : Prop :=
-  forall s cs n c, str_ok s cs -> c <> 0 -> chars (sresize s n c) = resize_spec n c cs.
-
-Theorem string_resize_refuted : ~ string_resize_statement.
-Proof.
-  intros H.
-  assert (K : str_ok (append_w sempty [97; 98; 99]) ([] ++ [97; 98; 99])).
-  { apply append_w_ok; [apply ok_sempty|]. repeat constructor; discriminate. }
-  specialize (H _ _ 6 120 K ltac:(discriminate)). vm_compute in H. discriminate H.
-Qed.
-Print Assumptions string_resize_refuted.
-
-(* exact guard: not growing, or the buffer is completely empty *)
-Theorem string_resize_partial : forall s cs n c, str_ok s cs ->
-  (n <= length cs \/ (buf_empty s = true /\ c <> 0)) ->
+(* resize(n, c) (repaired by fix K-C20-3: the old terminator is overwritten before the buffer grows):
+   the first n units padded with c, for every string; shrinking works for any c *)
+Theorem string_resize : forall s cs n c, str_ok s cs -> (n <= length cs \/ c <> 0) ->
   str_ok (sresize s n c) (resize_spec n c cs).
 Proof. exact sresize_ok. Qed.
-Print Assumptions string_resize_partial.
+Print Assumptions string_resize.
+
+(* regressions of K-C20-3..6: "abc".resize(6,'x'); append(other, 1, npos) on a non-empty target;
+   substr(r, 2) with the default count; erase(begin(), end()) on a string without a buffer *)
+Example string_regressions :
+  strun stinit [SApp [97; 98; 99]; SResize 6 120] =
+    [Some (SRNone, 3, [97; 98; 99], true, 3); Some (SRNone, 6, [97; 98; 99; 120; 120; 120], true, 6)] /\
+  strun stinit [SApp [97; 98; 99; 100; 101; 102]; SSel true; SApp [120; 121]; SAppSubNpos 1; SSel false; SSubstrNpos 2] =
+    [Some (SRNone, 6, [97; 98; 99; 100; 101; 102], true, 6); Some (SRNone, 0, [], true, 0);
+     Some (SRNone, 2, [120; 121], true, 2); Some (SRNone, 7, [120; 121; 98; 99; 100; 101; 102], true, 7);
+     Some (SRNone, 6, [97; 98; 99; 100; 101; 102], true, 6);
+     Some (SRList [99; 100; 101; 102], 6, [97; 98; 99; 100; 101; 102], true, 6)] /\
+  strun stinit [SEraseIt 0 0] = [Some (SRNum 0, 0, [], true, 0)].
+Proof. vm_compute. repeat split. Qed.
+Print Assumptions string_regressions.
 
 (* ---- XalanDeque ------------------------------------------------------------------------------- *)
-(* Two deques of the SAME block size bs >= 1, every finite op sequence
-   (push_back, pop_back, back, operator[] read and write, resize, clear, forward / reverse iteration, copy
-   construction, operator=, self-assignment, swap, re-construction with an initial size): return
-   values, size(), empty() and the element sequence seen through operator[] equal the list
-   specification (std::deque).  Rests on the block invariant: all blocks but the last are full, no
-   indexed block is empty, free blocks are empty. *)
-Theorem deque_refines_list : forall bs ops, 1 <= bs ->
-  drun (mkds (new_deq bs) (new_deq bs) false) ops = dlrun linit ops.
+(* Two deques of ANY block sizes >= 1 (swap carries the block size with the blocks: fix K-C20-2), every
+   finite op sequence (push_back, pop_back, back, operator[] read and write, resize, clear, forward /
+   reverse iteration, copy construction, operator=, self-assignment, swap, re-construction with an
+   initial size): return values, size(), empty() and the element sequence seen through operator[]
+   equal the list specification (std::deque).  Rests on the block invariant: all blocks but the last
+   are full, no indexed block is empty, free blocks are empty. *)
+Theorem deque_refines_list : forall bs0 bs1 ops, 1 <= bs0 -> 1 <= bs1 ->
+  drun (mkds (new_deq bs0) (new_deq bs1) false) ops = dlrun linit ops.
 Proof.
-  intros. apply deque_refines_list_lemma; [unfold drel; simpl; auto |].
-  split; [apply new_deq_ok; assumption | split; [apply new_deq_ok; assumption | reflexivity]].
+  intros. apply deque_refines_list_lemma; [unfold drel; simpl; auto|].
+  split; apply new_deq_ok; assumption.
 Qed.
 Print Assumptions deque_refines_list.
 
@@ -202,20 +193,12 @@ Example deque_block_recycling :
 Proof. vm_compute. reflexivity. Qed.
 Print Assumptions deque_block_recycling.
 
-(* FULL statement (any two block sizes).  FALSE of the faithful model (and of the library): swap
-   exchanges the block vectors but not the const m_blockSize.  Witness: 12 elements in a deque of
-   block size 10 swapped into one of block size 3: size() = 5. *)
-Definition deque_any_block_sizes_statement : Prop :=
-  forall bs0 bs1 ops, 1 <= bs0 -> 1 <= bs1 ->
-    drun (mkds (new_deq bs0) (new_deq bs1) false) ops = dlrun linit ops.
-
-Theorem deque_swap_refuted : ~ deque_any_block_sizes_statement.
-Proof.
-  intros H.
-  specialize (H 10 3 (map DPush [1;2;3;4;5;6;7;8;9;10;11;12] ++ [DSwap; DSel true]) ltac:(lia) ltac:(lia)).
-  vm_compute in H. discriminate H.
-Qed.
-Print Assumptions deque_swap_refuted.
+(* regression of K-C20-2: 12 elements in a deque of block size 10 swapped into one of block size 3 *)
+Example deque_swap_regression :
+  last (drun (mkds (new_deq 10) (new_deq 3) false) (map DPush [1;2;3;4;5;6;7;8;9;10;11;12] ++ [DSwap; DSel true; DSetIdx 11 99; DBack])) None
+  = Some (RNum 99, 12, false, [1;2;3;4;5;6;7;8;9;10;11;99]).
+Proof. vm_compute. reflexivity. Qed.
+Print Assumptions deque_swap_regression.
 
 (* ---- XalanList -------------------------------------------------------------------------------- *)
 (* Node-sequence model (node recycling through the per-list free chain, splice moving nodes between
